@@ -110,6 +110,27 @@ def print_shape(P, res):
             res.ok("PRINT-ORDER", "Value::display: the %s arm prints in stored order" % v)
 
 
+def number_tokens_parse(sh, res, rule="NUMBER-PARSE"):
+    """shared with C01: the `.parse().unwrap()` of parse_float / parse_integer is safe only for ASCII number tokens."""
+    rxs = lexer_regexes(sh)
+    for need in ("FLOAT_RE", "INTEGER_RE"):
+        if need not in rxs:
+            raise M.MissingAnchor("lexer regex %s not found in lazy_static!" % need)
+    # NUMBER-TOKENS-PARSE: everything the lexer calls a number is something std's parser accepts once `_` is removed:
+    # L(FLOAT_RE) and L(INTEGER_RE) are inside the ASCII grammars `-?[0-9][0-9_]*.[0-9][0-9_]*` / `-?[0-9][0-9_]*`.
+    # (`\d` instead of `[0-9]` lets Unicode digits through, and `"٣.٥".parse::<f64>().unwrap()` panics in parse_float.)
+    def strip_anchor(r_):
+        return r_[1:] if r_.startswith("^") else r_
+    rev = grex([("include", strip_anchor(rxs["FLOAT_RE"]), r"^-?[0-9][0-9_]*\.[0-9][0-9_]*"),
+                ("include", strip_anchor(rxs["INTEGER_RE"]), r"^-?[0-9][0-9_]*")])
+    for nm_, line_ in zip(("FLOAT_RE", "INTEGER_RE"), rev):
+        if line_.startswith("ok"):
+            res.ok(rule, "every %s token is an ASCII number that std's parser accepts after `_` is removed (%s)" % (nm_, line_[3:]))
+        else:
+            res.bad(rule, "parser::lex::%s # token outside the parsable grammar" % nm_,
+                    "%s matches text that is not an ASCII number (%s): the parser's `.parse().unwrap()` on such a token panics" % (nm_, line_[5:]), LEX)
+
+
 def run(ctx, res):
     print_shape(ctx.P, res)
     from .. import units as U
@@ -187,6 +208,7 @@ def run(ctx, res):
             res.ok("REGEX-COMPILE", "%s = %s" % (n, rxs[n]))
         else:
             res.bad("REGEX-COMPILE", "parser::lex::%s # does-not-compile" % n, "lexer regex %s does not compile: %s (the lazy_static unwrap panics on first use)" % (n, line), LEX)
+    number_tokens_parse(sh, res)
     tok, fl, it = out[len(names):]
     if tok.startswith("ok"):
         res.ok("STRING-TOKEN", "every printed string literal is exactly one STRING_RE token (%s)" % tok[3:])
